@@ -59,7 +59,15 @@ def bind_args(params: List[Param], call: ast.Call) -> Tuple[Dict[str, ast.expr],
     exact = True
     pos = [p for p in params if p.kind == "pos"]
     i = 0
+    args = []
     for a in call.args:
+        # f(*(a, b, c)) / f(*[a, b]) with a literal display is the positional call f(a, b, c)
+        if isinstance(a, ast.Starred) and isinstance(a.value, (ast.Tuple, ast.List)) \
+                and not any(isinstance(e, ast.Starred) for e in a.value.elts):
+            args.extend(a.value.elts)
+        else:
+            args.append(a)
+    for a in args:
         if isinstance(a, ast.Starred):
             exact = False
             break
